@@ -190,11 +190,12 @@ FromProto(kind) ==
 --------------------------------------------------------------------------
 (* The state machine TLC explores: pick a configuration, run one experiment, look at the result. *)
 VARIABLES cfg, exp, out,
-          vst      \* a validator session: [on, loc, pub, acc, sig, n]
-vars == <<cfg, exp, out, vst>>
+          vst,     \* a validator session: [on, loc, pub, acc, sig, n]
+          calls    \* the API-level machine below: history of calls on several messages in flight
+vars == <<cfg, exp, out, vst, calls>>
 
 NoSession == [on |-> FALSE, loc |-> 0, pub |-> 0, acc |-> {}, sig |-> FALSE, n |-> 0]
-Init == cfg \in Configs /\ exp = [k |-> "created"] /\ out = "units" /\ vst = NoSession
+Init == cfg \in Configs /\ exp = [k |-> "created"] /\ out = "units" /\ vst = NoSession /\ calls = <<>>
 
 Receive(S) ==
   /\ exp' = [k |-> "receive", S |-> S]
@@ -228,7 +229,7 @@ DoFromProto(kind) ==
   /\ exp' = [k |-> "fromproto", kind |-> kind]
   /\ out' = FromProto(kind)
 
-Fresh == exp.k = "created" /\ UNCHANGED <<cfg, vst>>
+Fresh == exp.k = "created" /\ UNCHANGED <<cfg, vst, calls>>
 
 (* a sequence of deliveries (genuine units and junk of every kind, in any order, for any index)
    to one validator *)
@@ -243,7 +244,7 @@ Deliver(loc, pub, u, f, j) ==
         /\ out' = r.v
         /\ vst' = [on |-> TRUE, loc |-> loc, pub |-> pub, acc |-> r.st.acc, sig |-> r.st.sig, n |-> vst.n + 1]
 ActSession ==
-  /\ exp.k = (IF vst.on THEN "session" ELSE "created") /\ vst.n < MaxSession /\ UNCHANGED cfg
+  /\ exp.k = (IF vst.on THEN "session" ELSE "created") /\ vst.n < MaxSession /\ UNCHANGED <<cfg, calls>>
   /\ \E loc \in Positions(NPeers(cfg)), pub \in Positions(NPeers(cfg)), u \in Slots(cfg), f \in SessionFields,
         j \in Slots(cfg) : Deliver(loc, pub, u, f, j)
 ActReceive == Fresh /\ \E S \in SUBSET Slots(cfg) : Receive(S)
@@ -260,6 +261,41 @@ ActFromProto == Fresh /\ \E kind \in ProtoKinds : DoFromProto(kind)
 Next == ActReceive \/ ActCorrupt \/ ActByzantine \/ ActValidate \/ ActFromProto \/ ActSession
 
 Spec == Init /\ [][Next]_vars
+
+--------------------------------------------------------------------------
+(* THE PACKAGE AS AN API USED BY SEVERAL MESSAGES AT ONCE (INIT ApiInit / NEXT ApiNext).
+   The processor runs one goroutine per message key and publishes on yet another one, so calls
+   that belong to different messages interleave arbitrarily; the contract is that every call is
+   atomic and that its result is a VALUE:
+     - the result of a call depends on that call's own message and arguments only, whatever other
+       calls are in progress or were made before (PerMessageResults: it is the result the
+       single-message operators above give - so Reconstructs and "every proof verifies" hold per
+       message under any interleaving);
+     - a result, once handed to the caller, never changes, whatever is called afterwards
+       (ResultsAreValues: the history of results is append-only) - the subprocessor keeps the
+       rebuilt message while it waits for the receive threshold.
+   Nothing in the model can violate this (there is no shared state to model); it is stated here
+   because the replayer monitors exactly these two formulas on the real code: rounds of concurrent
+   create / verify-every-proof / rebuild on distinct messages, and every value handed back by the
+   package is kept and compared again after later calls. *)
+NMsgs == 2
+MaxCalls == 3
+ApiResult(c, api, S) ==
+  CASE api = "create" -> "units"
+    [] api = "verify-proofs" -> "all-verify"
+    [] api = "construct" -> Construct(c, S, -1, "none", "ok")
+ApiInit == cfg \in Configs /\ exp = [k |-> "api"] /\ out = "units" /\ vst = NoSession /\ calls = <<>>
+ApiNext ==
+  /\ Len(calls) < MaxCalls /\ UNCHANGED <<cfg, exp, out, vst>>
+  /\ \E m \in 1..NMsgs, api \in {"create", "verify-proofs", "construct"}, S \in SUBSET Slots(cfg) :
+        /\ api # "construct" => S = {}
+        /\ calls' = Append(calls, [m |-> m, api |-> api, S |-> S, res |-> ApiResult(cfg, api, S)])
+PerMessageResults ==
+  \A i \in 1..Len(calls) :
+     /\ calls[i].res = ApiResult(cfg, calls[i].api, calls[i].S)
+     /\ (calls[i].api = "construct" =>
+           calls[i].res = (IF Cardinality(calls[i].S) >= Data(cfg) THEN "msg" ELSE "err"))
+ResultsAreValues == [][\A i \in 1..Len(calls) : calls'[i] = calls[i]]_vars
 
 --------------------------------------------------------------------------
 (* PROPERTIES (hold with every Fix* = TRUE; the code as it is violates NeverFails, HonestAccepted) *)
